@@ -184,9 +184,9 @@ def peel(v, name):
     return app[1]
 
 
-def check_crossval(run, E):
+def check_crossval(run, E, pid='C04'):
     for ceil_case, calc in (('list', True), ('list', False), ('none', False)):
-        ck = FuncCheck(E, run, 'C04', EV + 'crossval', f'fitter=list,ceil_set={ceil_case},calc_noise_ceil={calc}')
+        ck = FuncCheck(E, run, pid, EV + 'crossval', f'fitter=list,ceil_set={ceil_case},calc_noise_ceil={calc}')
 
         def mk(E, ceil_case=ceil_case, calc=calc):
             models = E.sym_list('models', 'Model')
